@@ -1318,7 +1318,8 @@ def _set_cookie(v):
     else:
         name, value = v.str('name'), v.str('value')
     a = cookie_inputs(v)
-    default_secure = bool(v.choose(2, 'secure_cookies_by_default')) if a['secure'] is None else True
+    # the app option varies independently of the argument: an explicit secure=True / False must win over either setting
+    default_secure = bool(v.choose(2, 'secure_cookies_by_default'))
     jk = pick(v, 'jar', 3)
     # whether the jar accepts the name is decided by the stdlib's legal-key set (http.cookies._is_legal_key)
     reject = bool(jk != 2 and pick(v, 'jar-rejects-the-name', 2))
